@@ -1,5 +1,5 @@
 (* The statements of Props/C16.v, assembled from GenomeOps_proofs.v, Denote_proofs.v and RandLayer.v. *)
-From QV Require Import Evqe.Genome Evqe.GenomeFacts Evqe.GenomeOps_proofs Evqe.Stream Evqe.RandLayer
+From QV Require Import Evqe.Genome Evqe.GenomeFacts Evqe.GenomeOps_proofs Evqe.Stream Evqe.RandLayer Evqe.RandLayer_proofs
   Evqe.Circuit Evqe.Denote Evqe.Denote_proofs.
 Open Scope Z_scope.
 
@@ -81,3 +81,48 @@ Proof.
   - intros vs. exact (proj1 (change_parameter_values_spec i vs Val)).
   - intros layer_id vs. destruct (change_layer_parameter_values_spec i layer_id vs Val) as [A [B _]]. exact (conj A B).
 Qed.
+
+(* a valid individual on 0 qubits exists (one layer without gates); appending to it raises the layer exception *)
+Lemma add_random_layers_zero_qubits legacy (i : individual Z) nl randomize seed s fuel :
+  individual_is_valid i = true -> i_qubits i = 0 -> 1 <= nl ->
+  exists e, add_random_layers legacy i nl randomize seed s fuel = Err e /\
+            (e = LayerException \/ is_draw_error e = true).
+Proof.
+  intros V Q Hl. unfold add_random_layers.
+  assert (E : (nl <? 1) = false) by (apply Z.ltb_ge; lia). rewrite E.
+  destruct (draw_seed seed s) as [s0|e] eqn:DS; cbn [bind].
+  2:{ exists e. split; [reflexivity|]. right. eapply draw_seed_err; eauto. }
+  apply valid_parts in V as [NE [G _]].
+  destruct (exists_last NE) as [a [lst EL]].
+  assert (LR : last_res (i_layers i) = Ok lst) by (rewrite EL; apply last_res_app).
+  rewrite LR. cbn [bind].
+  destruct (i_layers i) as [|first tl] eqn:ELs; [congruence|]. cbn [head_res bind].
+  assert (Qf : l_qubits first = 0) by (rewrite <- Q; apply G; left; reflexivity). rewrite Qf.
+  destruct (Z.to_nat nl) as [|k] eqn:EK; [lia|]. cbn [random_layers].
+  destruct (new_random_seed s0) as [[sd s1]|e] eqn:NS; cbn [bind fst snd].
+  2:{ exists e. split; [reflexivity|]. right. eapply new_random_seed_err; eauto. }
+  exists LayerException. split; [reflexivity | left; reflexivity].
+Qed.
+
+Section ZeroRandomAppend.
+Context {M : Type}.
+Variables (mul : M -> M -> M) (one : M) (sem : instr Z -> M).
+Hypothesis mul_one_r : forall m, mul m one = m.
+Hypothesis sem_id : forall q, sem (IId q) = one.
+Hypothesis sem_u_zero : forall q, sem (IU q (AVal 0) (AVal 0) (AVal 0)) = one.
+Hypothesis sem_cu3_zero : forall c t, sem (ICU3 c t (AVal 0) (AVal 0) (AVal 0)) = one.
+
+Theorem random_append_zero_identity legacy (i : individual Z) nl seed s fuel i' rest :
+  individual_is_valid i = true ->
+  add_random_layers legacy i nl false seed s fuel = Ok (i', rest) ->
+  Z.of_nat (length (i_layers i')) <= 1000000 ->
+  exists c c', concrete false i = Ok c /\ concrete false i' = Ok c' /\ den mul one sem c' = den mul one sem c.
+Proof.
+  intros V A Len. destruct (add_random_layers_is_add_layers legacy i nl false seed s fuel i' rest A) as [new [vs [AL Z0]]].
+  rewrite (Z0 eq_refl) in AL.
+  assert (Ls : i_layers i' = i_layers i ++ new).
+  { pose proof AL as AL'. unfold add_layers in AL'. apply make_individual_ok in AL' as [-> _]. reflexivity. }
+  rewrite Ls, app_length in Len.
+  exact (append_zero_identity mul one sem 0 mul_one_r sem_id sem_u_zero sem_cu3_zero i new _ i' V Len AL).
+Qed.
+End ZeroRandomAppend.
